@@ -33,10 +33,13 @@ static void gen_slicing(Draw &d, Case &c) {
   auto a = gen_values(d, (size_t)MAXR * NC, -2, 2, false, true);   // strictly positive
   auto b = gen_values(d, (size_t)6 * NC, -2, 2, false, true);
   auto v = gen_values(d, MAXR, -2, 2, false, true);
+  // unit of the data: a third of the cases are rescaled by an exact power of two up to 2^40 (distances beyond any "large value"
+  // sentinel); the order of all distances, hence labels and selections, is unchanged by construction
+  { int e = d.coin(66) ? 0 : (int)d.pick<int>({20, 30, 40}); if (e) { double f = std::ldexp(1.0, e); for (auto &x : a) x *= f; for (auto &x : b) x *= f; } c.p.push_back(e); }
   for (auto *x : {&a, &b, &v}) c.v.insert(c.v.end(), x->begin(), x->end());
   c.v.push_back((double)d.i(1, 1000));   // seed for the kernels that draw random numbers
   c.nontrivial = true;
-  c.tags = {std::string("kernel=") + kname[kernel], "all-984-(rows,threads)-pairs"};
+  c.tags = {std::string("kernel=") + kname[kernel], "all-984-(rows,threads)-pairs", fmt("unit=2^%d", (int)c.p.back())};
 }
 static M topblock(const M &A, int r) { M B(r, A.c); for (int i = 0; i < r; i++) for (int j = 0; j < A.c; j++) B(i, j) = A(i, j); return B; }
 
